@@ -1,23 +1,43 @@
-import SamplyModel.Model.ConvSpec
+import SamplyModel.Lemmas.ConvFinal
 /-!
-# C01 — perf.data import conserves samples (first instalment)
+# C01 — perf.data import conserves samples
 
 Model: `Model/Converter.lean` (`step`, `run`), `Model/ConvFlush.lean` (`flushAll`, `views`).
 Specification side: `ConvSpec.accepted` — the samples of the history other than idle-thread samples and
 exact same-thread same-timestamp repeats, computed from the bare record list.
 
-Full statement (judged on samply's output on every run by `ConvJudge.judgeC01`, and the target of the
-invariant proof under construction in `Lemmas/ConvInv.lean`):
+Main theorems (for every configuration and every record history, no grammar assumption):
 
-    cfg.reuse = false →
-    (views (run cfg rs)).flatMap (fun v => v.samples.map (fun o => (v.pidBase, v.tidBase, o.t, o.weight)))
-      ~ (accepted rs).map (fun a => (a.pid, a.tid, a.t - cfg.ref, 1))          (List.Perm)
+* `C01_conservation` (default options, `cfg.reuse = false`):
 
-Proved so far (each for all inputs): the flush stage neither loses nor invents nor re-weights samples
-(`C01_flush_no_loss_partial`, `C01_flushAll_no_loss_partial`), idle-thread samples never enter a buffer
-(`C01_idle_ignored`), and the accepted list never contains an idle-thread sample nor two consecutive equal
-timestamps of one live thread (`C01_accepted_no_idle`). Missing: the buffer-conservation invariant over
-`step` (buffers of removed processes are parked, never dropped; thread handles carry the sample's pid/tid).
+      (views (run cfg rs)).flatMap (fun v => v.samples.map (fun o => (v.pidBase, v.tidBase, o.t, o.weight)))
+        ~ (accepted rs).map (fun a => (a.pid, a.tid, a.t - cfg.ref, 1))          (List.Perm)
+
+  no sample lost, none invented, weight 1, converted time, on a thread entry carrying the sample's tid inside
+  a process entry carrying its pid. This is the statement `ConvJudge.judgeC01` evaluates on samply's output.
+* `C01_conservation_reuse` (any options): the same multiset equation without the (pid, tid) key — with
+  `--reuse-threads` a sample may sit on the entry of an earlier incarnation with another tid (example at the
+  end of the file: the keyed statement is false there), but it still appears exactly once.
+* corollaries `C01_count`, `C01_weight_one`, `C01_membership`.
+
+Proof (`Lemmas/ConvAL`, `ConvInv`, `ConvHelpers`, `ConvSim`, `ConvViews`, `ConvFinal`): the run simulates the
+specification fold `accStep` (`Conv.run_sim`) under the invariant
+
+* `InvA` (`C01_state_valid`): keys of the process table distinct and equal to the stored pid; every stored
+  handle (process, main thread, threads, thread pools, process pool incl. its pools) is a valid entry index;
+  every thread entry's process index is valid; without reuse the handles are bound to entries with the right
+  pid / (process entry, tid) — entries are only appended and `set*` never changes these fields;
+* every buffered sample (parked or live) names a valid thread entry, without reuse the one carrying the
+  sample's own pid / tid (ghost fields `gpid`, `gtid`);
+* `C01_dedup_refinement`: the `lastTs` of the thread object bound to (pid, tid) equals the specification's
+  `lastGet` (EXIT / EXEC drop, renames, forks and handle recycling keep it);
+* `C01_buffered_eq_accepted`: buffered samples = accepted samples as multisets — `removeProc` parks a
+  non-empty buffer, every other helper re-inserts the process with the same buffer.
+
+Then the flush keeps entry / time of every buffered sample with weight 1 (`C01_flushAll_no_loss_partial`, kept
+from the first instalment; the `_partial` lemmas are the flush-stage facts, now subsumed) and `views` is a
+partition of the flushed samples by entry index (`Conv.views_perm`), dropping nothing because all indices are
+valid.
 -/
 open Conv ConvSpec
 
@@ -78,6 +98,114 @@ theorem C01_accepted_no_idle (rs : List Rec) : ∀ a ∈ accepted rs, a.tid ≠ 
   | nil => intro st h; exact h
   | cons r rest ih => intro st h; exact ih _ (accStep_no_idle st r h)
 
+/-! ### Conservation along every history -/
+
+/-- The converter run simulates the specification fold: in every reachable state the buffered samples are,
+as a multiset of (pid, tid, profile time), the accepted samples of the history so far. -/
+theorem C01_buffered_eq_accepted (cfg : Config) (rs : List Rec) :
+    List.Perm ((buffered (run cfg rs)).map (fun u => (u.gpid, u.gtid, u.t)))
+      ((accepted rs).map (fun a => (a.pid, a.tid, a.t - cfg.ref))) :=
+  (run_sim cfg rs).buf
+
+/-- The per-thread `last_timestamp` kept by the converter (on the thread object currently bound to
+(pid, tid); `none` if there is none) is the specification's table entry — the dedup decision is the same. -/
+theorem C01_dedup_refinement (cfg : Config) (rs : List Rec) (pid tid : Nat) :
+    tl (run cfg rs) pid tid = lastGet (rs.foldl accStep ([], [])).1 pid tid :=
+  (run_sim cfg rs).htl pid tid
+
+/-- Every handle stored anywhere in a reachable state names an existing entry, every thread entry names an
+existing process entry, and the keys of the process table are distinct. -/
+theorem C01_state_valid (cfg : Config) (rs : List Rec) : InvA (run cfg rs) := (run_sim cfg rs).inv
+
+/-- no sample lost, none invented, weight 1, recorded time, on the thread entry carrying the sample's tid
+    inside the process entry carrying its pid (default options: no thread reuse) -/
+theorem C01_conservation (cfg : Config) (rs : List Rec) (hr : cfg.reuse = false) :
+    List.Perm
+      ((views (run cfg rs)).flatMap (fun v => v.samples.map (fun o => (v.pidBase, v.tidBase, o.t, o.weight))))
+      ((accepted rs).map (fun a => (a.pid, a.tid, a.t - cfg.ref, 1))) := by
+  have hsim := run_sim cfg rs
+  generalize run cfg rs = s at hsim
+  have h1 := views_perm_buffered s hsim.inv (fun u hu => (hsim.sok u hu).1)
+    (fun v o => (v.pidBase, v.tidBase, o.t, o.weight))
+    (fun i t w => ((entKey s i).1, (entKey s i).2, t, w))
+    (fun i te v hte hv o => by
+      have := viewOf_key hte hv
+      simp only [← this])
+  refine h1.trans ?_
+  have h2 : (buffered s).map (fun u => ((entKey s u.th).1, (entKey s u.th).2, u.t, 1)) =
+      ((buffered s).map proj).map (fun x => (x.1, x.2.1, x.2.2, 1)) := by
+    rw [List.map_map]
+    apply List.map_congr_left
+    intro u hu
+    obtain ⟨ph, h3, h4⟩ := (hsim.sok u hu).2 (by rw [hsim.hcfg]; exact hr)
+    rw [entKey_of_skel h3 h4]
+    rfl
+  rw [h2]
+  refine (hsim.buf.map _).trans (List.Perm.of_eq ?_)
+  unfold accepted
+  rw [List.map_map]
+  rfl
+
+/-- with thread reuse enabled samples may be merged into entries of earlier incarnations, but still every
+    accepted sample appears exactly once at its time with weight 1 and nothing else appears -/
+theorem C01_conservation_reuse (cfg : Config) (rs : List Rec) :
+    List.Perm
+      ((views (run cfg rs)).flatMap (fun v => v.samples.map (fun o => (o.t, o.weight))))
+      ((accepted rs).map (fun a => (a.t - cfg.ref, 1))) := by
+  have hsim := run_sim cfg rs
+  generalize run cfg rs = s at hsim
+  have h1 := views_perm_buffered s hsim.inv (fun u hu => (hsim.sok u hu).1)
+    (fun _ o => (o.t, o.weight)) (fun _ t w => (t, w)) (fun _ _ _ _ _ _ => rfl)
+  refine h1.trans ?_
+  have h2 : (buffered s).map (fun u => (u.t, 1)) = ((buffered s).map proj).map (fun x => (x.2.2, 1)) := by
+    rw [List.map_map]; rfl
+  rw [h2]
+  refine (hsim.buf.map _).trans (List.Perm.of_eq ?_)
+  unfold accepted
+  rw [List.map_map]
+  rfl
+
+/-- the output contains exactly as many samples as the history has accepted samples (any options) -/
+theorem C01_count (cfg : Config) (rs : List Rec) :
+    ((views (run cfg rs)).flatMap (fun v => v.samples)).length = (accepted rs).length := by
+  have h := (C01_conservation_reuse cfg rs).length_eq
+  rw [List.length_map] at h
+  rw [← h]
+  simp only [List.length_flatMap, List.length_map]
+
+/-- every output sample has weight 1 (any options) -/
+theorem C01_weight_one (cfg : Config) (rs : List Rec) :
+    ∀ v ∈ views (run cfg rs), ∀ o ∈ v.samples, o.weight = 1 := by
+  intro v hv o ho
+  have hm : (o.t, o.weight) ∈ (views (run cfg rs)).flatMap (fun v => v.samples.map (fun o => (o.t, o.weight))) :=
+    List.mem_flatMap.mpr ⟨v, hv, List.mem_map_of_mem (f := fun o : OutSample => (o.t, o.weight)) ho⟩
+  have := (C01_conservation_reuse cfg rs).mem_iff.mp hm
+  obtain ⟨a, _, ha⟩ := List.mem_map.mp this
+  exact (congrArg Prod.snd ha).symm
+
+/-- every output sample sits at the converted time of an accepted sample of its own (pid, tid), and every
+accepted sample is found on an entry of its (pid, tid) (default options) -/
+theorem C01_membership (cfg : Config) (rs : List Rec) (hr : cfg.reuse = false) (pid tid t : Nat) :
+    (∃ v ∈ views (run cfg rs), v.pidBase = pid ∧ v.tidBase = tid ∧ ∃ o ∈ v.samples, o.t = t) ↔
+      (∃ a ∈ accepted rs, a.pid = pid ∧ a.tid = tid ∧ a.t - cfg.ref = t) := by
+  have hp := C01_conservation cfg rs hr
+  constructor
+  · rintro ⟨v, hv, rfl, rfl, o, ho, rfl⟩
+    have hm : (v.pidBase, v.tidBase, o.t, o.weight) ∈ (views (run cfg rs)).flatMap
+        (fun v => v.samples.map (fun o => (v.pidBase, v.tidBase, o.t, o.weight))) :=
+      List.mem_flatMap.mpr ⟨v, hv,
+        List.mem_map_of_mem (f := fun o : OutSample => (v.pidBase, v.tidBase, o.t, o.weight)) ho⟩
+    obtain ⟨a, ha, heq⟩ := List.mem_map.mp (hp.mem_iff.mp hm)
+    simp only [Prod.mk.injEq] at heq
+    exact ⟨a, ha, heq.1, heq.2.1, heq.2.2.1⟩
+  · rintro ⟨a, ha, rfl, rfl, rfl⟩
+    have hm : (a.pid, a.tid, a.t - cfg.ref, 1) ∈ (accepted rs).map (fun a => (a.pid, a.tid, a.t - cfg.ref, 1)) :=
+      List.mem_map_of_mem (f := fun a : Acc => (a.pid, a.tid, a.t - cfg.ref, 1)) ha
+    obtain ⟨v, hv, hin⟩ := List.mem_flatMap.mp (hp.mem_iff.mpr hm)
+    obtain ⟨o, ho, heq⟩ := List.mem_map.mp hin
+    simp only [Prod.mk.injEq] at heq
+    exact ⟨v, hv, heq.1, heq.2.1, o, ho, heq.2.2.1⟩
+
 /-! ### Non-vacuity -/
 def C01_exHistory : List Rec :=
   [.comm 100 100 "p" false 10, .sample 100 100 12 false 1 0x10 [], .sample 100 100 12 false 1 0x10 [],
@@ -88,3 +216,22 @@ example : (accepted C01_exHistory).map (fun a => (a.pid, a.tid, a.t)) = [(100, 1
   decide
 example : ((views (run { ref := 12 } C01_exHistory)).flatMap (fun v => v.samples.map (fun o => (v.pidBase, v.tidBase, o.t, o.weight))))
     = [(100, 100, 0, 1), (100, 100, 2, 1), (100, 101, 2, 1)] := by decide
+
+/-- the hypotheses of `C01_conservation` hold for the default configuration, and both sides are non-trivial -/
+example : ({ ref := 12 } : Config).reuse = false := rfl
+
+/-- Thread reuse: tid 101 ("w") exits, tid 102 is forked and named "w" and takes over the entry of 101. -/
+def C01_exReuse : List Rec :=
+  [.comm 100 100 "p" false 10, .fork 100 101 100 100 11, .comm 100 101 "w" false 11,
+   .sample 100 101 12 false 1 0x10 [], .exit 100 101 13, .fork 100 102 100 100 14, .comm 100 102 "w" false 14,
+   .sample 100 102 15 false 1 0x10 []]
+
+example : (accepted C01_exReuse).map (fun a => (a.pid, a.tid, a.t)) = [(100, 101, 12), (100, 102, 15)] := by
+  decide
+/-- without reuse the samples sit on entries of their own tid … -/
+example : ((views (run {} C01_exReuse)).flatMap (fun v => v.samples.map (fun o => (v.pidBase, v.tidBase, o.t, o.weight))))
+    = [(100, 101, 12, 1), (100, 102, 15, 1)] := by decide
+/-- … with reuse the second one sits on the recycled entry of tid 101 (so `C01_conservation` needs its
+hypothesis), while the unkeyed multiset of `C01_conservation_reuse` is unchanged -/
+example : ((views (run { reuse := true } C01_exReuse)).flatMap (fun v => v.samples.map (fun o => (v.pidBase, v.tidBase, o.t, o.weight))))
+    = [(100, 101, 12, 1), (100, 101, 15, 1)] := by decide
